@@ -336,13 +336,18 @@ HasOpenLit(ts) ==
      \/ ts[i].k \in {"qid", "json"} /\ HasOpenJStr(ts[i].cp, 2)
      \/ ts[i].k = "int" /\ IntTooBig(ts[i].cp)
 Both(c) == IF c THEN BOOLEAN ELSE {TRUE}
+\* ds, ms, fl and sg are NOT open: property C01 pins "a projection's right-hand side extends over
+\* following selectors until a pipe, a lower-precedence operator or a closing bracket" and C10 pins
+\* "unary sign binds tighter than every binary operator".  (They were admitted as alternative readings
+\* until round 7 of the seeding, after the binding powers of one reference implementation; that hid
+\* two defects.)  The switches remain in the grammar so that the other reading can be named.
 Modes(ts) == { Mode(ds, ms, fl, nt, sg, kw, ws, len) :
-                 ds \in Both(HasDotStar(ts)), ms \in Both(HasDotMS(ts)),
-                 fl \in Both(HasTok(ts, "filter")), nt \in Both(HasTok(ts, "not")),
-                 sg \in Both(HasTok(ts, "minus") \/ HasTok(ts, "plus")),
+                 ds \in {FALSE}, ms \in {FALSE},
+                 fl \in {FALSE}, nt \in Both(HasTok(ts, "not")),
+                 sg \in {FALSE},
                  kw \in Both(HasKwTok(ts)), ws \in Both(HasWsComposite(ts)),
                  len \in Both(HasOpenLit(ts)) }
-DefaultMode == Mode(TRUE, TRUE, TRUE, TRUE, TRUE, TRUE, TRUE, TRUE)
+DefaultMode == Mode(FALSE, FALSE, FALSE, TRUE, FALSE, TRUE, TRUE, TRUE)
 \* the two pure readings of DESIGN.md appendix A
 ModeR == DefaultMode
 ModeU == Mode(FALSE, FALSE, FALSE, FALSE, FALSE, TRUE, TRUE, TRUE)
